@@ -401,6 +401,9 @@ class DescriptorTransaction(_TransactionBase):
                         new_descriptor.Handle, new_descriptor.DescriptorVersion)
                     # update from a private copy: update_from_other_container copies members only one level deep, the
                     # application still holds new_descriptor
+                    # and try the update on a scratch copy first: a value that the descriptor rejects (type check of a
+                    # list member ...) must raise before the descriptor in the mdib is half updated and not re-indexed
+                    orig_descriptor.mk_copy().update_from_other_container(new_descriptor)
                     orig_descriptor.update_from_other_container(new_descriptor.mk_copy())
                     self._update_corresponding_state(orig_descriptor)
                     self._mdib.descriptions.update_object_no_lock(orig_descriptor)
